@@ -20,16 +20,30 @@ MANIFEST = dict(
           "most once, at most `number of tables` locks, and holds nothing afterwards; every request of every request sequence of "
           "the model is answered; several look-ups running at the same time cannot deadlock (lock order child -> parent: from every "
           "state some thread can move, every move decreases that thread's measure); analyses running at the same time keep the "
-          "graph acyclic because check and link are one step (LINK_LOCK); the class tree built from ANY file list by any schedule "
+          "graph acyclic because check and link are one step (LINK_LOCK); the ANNOTATION-FLAG PROTOCOL (annotation_done / "
+          "annotating_thread / wait_until_annotated, Model/Flags.v: any number of request threads, any dependency lists per "
+          "Document object, change / save / close notifications at any moment) cannot deadlock: invariant over all reachable "
+          "states, every wait-for edge of a look-up points to a thread whose walk began after the look-up did, so look-ups get "
+          "younger along wait-for paths, there is no wait-for cycle, some thread can always move, and every chain of moves is "
+          "finite (lexicographic measure: notifications still to come, cost of the work still to do), hence every request returns "
+          "under any scheduler; the re-entry paths of the code are provably never taken; the class tree built from ANY file list by any schedule "
           "of any chunking has no parent cycle and children lists that mirror the parent links, so both member walkers return and "
           "never re-lock a node. Refutation witnesses for the rules before 03f6c4d (mutual parents; self-parent in another letter "
           "case: Deadlock), the tree before 8e84a43 (cycle: unbounded recursion / re-lock), before 17b78d0 (class declared twice: "
           "children cycle, re-lock) and the two-step check/link before 2465f70 (schedule check,check,link,link installs a cycle)."),
-    note=("PARTIAL as far as cross-thread claims go: proved are (a) no circular wait among concurrent LOOK-UPS in an acyclic graph "
-          "and (b) acyclicity under concurrent ANALYSES with an atomic check-and-link step; NOT machine-checked: the interplay of "
-          "the per-document annotation flag (annotation_done / annotating_thread, d9527e7) with those (argued by a timeline "
-          "argument -- a thread waits for another document's flag only after publishing its own table -- and exercised by the "
-          "`conc` stress), the RwLocks of annotated tree nodes, the DocumentInfo RwLocks. The model abstracts a request to: full "
+    note=("PARTIAL as far as cross-thread claims go: proved ON THE MODELS are (a) no circular wait among concurrent LOOK-UPS in an "
+          "acyclic graph (lock order child -> parent; the one call site that violated it, class_level_table before d98ed2d, is a "
+          "refutation witness), (b) acyclicity under concurrent ANALYSES with an atomic check-and-link step, (c) deadlock freedom and "
+          "termination of the annotation-flag protocol. The three models are separate: their COMPOSITION (a thread blocked on a flag "
+          "while holding annotated-node RwLocks of its own tree, entity-node mutexes, the Document mutex; LINK_LOCK and table mutexes "
+          "are never held across a flag wait) is covered by a lock-nesting audit of every lock site of /repo/src (reported, not "
+          "machine-checked) and by forced schedules: real schedules are FORCED at the yield points (analyze:after_cache_check, "
+          "annotate:after_publish_tree, entity:between_lookup_and_insert) for 2-3 threads on mutual uses / parent cycles / chains "
+          "with notifications in between, and SAMPLED otherwise (conc stress). The audit found the cycle Document -> tree map -> "
+          "entity node -> Document (start-up tree build against a hierarchy request), reproduced by the `treerace` schedule. "
+          "Stack: the nested-analysis depth equals the longest parent/uses chain (C14_analysis_depth_is_chain_length: instances); "
+          "bytes per level are measured on the real server: a linear chain of 150 classes is answered, 300 overflows the 2 MiB "
+          "worker stack (finding inheritance-chain-stack-overflow). The model abstracts a request to: full "
           "analysis unless cached, a worst-case (all-miss) look-up from the file's table, the tables of the parent token and of "
           "every `uses` entity with a look-up there, and the member walkers on the class tree; definition / completion internals "
           "beyond that are covered by the in-process runs only. Deadlines define `hangs` (10 s per request). Stack depth is "
@@ -46,6 +60,9 @@ ASSUMPTIONS = [
     "the workspace is static during a case (no didChange / didSave): every Document is the saved copy parsed from disk",
     "the request abstraction of the model (full analysis unless cached; worst-case look-up from the file's table; parent token and uses entities resolved through their own tables; member walkers) over-approximates the locks the real handlers take on symbol tables and tree nodes; it does not model the RwLocks of annotated nodes and DocumentInfo",
     "the 10 000-step cut-offs of is_own_table_reachable_from / is_self_or_ancestor answer `reachable` (refuse): refusing is always safe for acyclicity, so the theorems need no size bound",
+    "flag protocol model (Model/Flags.v): a step is a region that touches the DocumentInfo / Document fields under their own short locks (fetch the current Document object; parse + install; wait for / take the flag; publish annotated_ast; set the table; one look-up of a walk; release); the opened and saved copies, the table bit and a per-object flag + annotating_thread are the whole state; what a walk looks up is an arbitrary list per Document object (so a changed text may depend on other files); notifications replace the Document object and clear the table in one step (99fb95f); the liveness theorem assumes finitely many files (N) and walks of bounded length (D)",
+    "forced schedules: the yield points identify a thread by a thread-local role, not by the document it is at; `n-th arrival` selects the document (1 = the request's own, 2.. = nested); a thread that neither reaches its gate nor finishes within 400 ms is taken to be blocked (under load it may just be slow: the schedule then differs from the intended one but must still drain); a request that has not returned 8 s after all gates were opened hangs",
+    "treerace draws which parked pool worker is which (the hook does not say): 1 attempt in 6 realises the intended interleaving, 40 (quick) / 200 (thorough) attempts per run",
 ]
 
 CLS = ["aCa", "aCb", "aCc", "aCd"]
@@ -286,6 +303,154 @@ def dup_oracle(case, out):
     return None
 
 
+# --------------------------------------------------------------------------------------------
+# the annotation-flag protocol under forced schedules (hooks build; model: coq/theories/Model/Flags.v)
+# --------------------------------------------------------------------------------------------
+def flags_stage(ctx, cov, known):
+    import threading
+    from checks import flags_common as fl
+    cases, wsn = fl.gen(ctx)
+    hb = diff.Engines.harness(hooks=True)
+    mb = diff.Engines.model()
+    nchunk = 6
+    chunks = [cases[i::nchunk] for i in range(nchunk)]
+    outs_by = [None] * nchunk
+
+    def work(i):
+        outs_by[i] = core.run_lines(hb, "flags", chunks[i], shards=1)
+    ths = [threading.Thread(target=work, args=(i,)) for i in range(nchunk)]
+    [t.start() for t in ths]
+    [t.join() for t in ths]
+    impl = {}
+    for i in range(nchunk):
+        for c, o in zip(chunks[i], outs_by[i]):
+            impl[c] = o
+    model = dict(zip(cases, core.run_lines(mb, "flags", cases, shards=1)))
+    ndiff = 0
+    for c in cases:
+        o = impl[c]
+        r = fl.oracle(c, o, wsn[c])
+        if r is None and fl.canon(o) != model[c]:
+            r = "the model of the protocol predicts %s, the implementation shows %s" % (model[c], fl.canon(o))
+        if r is not None:
+            path = core.write_replay(ctx.pid, ctx.seed, {"engine": "flags (hooks build)", "case": c, "case_readable": fl.describe(c),
+                                                         "observed": o, "model": model[c], "expected": r})
+            v = core.Violation(r, path, True)
+            v.coverage = cov
+            raise v
+        if "diff" in o and wsn[c] in fl.ACYCLIC_PARENTS:
+            ndiff += 1
+    # the start-up tree build against a type-hierarchy request (Document -> tree map -> entity node -> Document)
+    n = 40 if ctx.quick else 200
+    tr = core.run_lines(hb, "flags", ["treerace:%d" % n], shards=1)[0]
+    cov["treerace"] = tr
+    if not tr.startswith("treerace=ok"):
+        listed = dict((f.get("class"), f.get("id")) for f in ctx.open_findings())
+        what = ("class-tree build against typeHierarchy/supertypes, files aK / aC (aK) / aG (aC) with cached documents: %s (the request is "
+                "never answered / the pool workers never finish: build_tree_parallel holds the Document while taking the map write lock, "
+                "is_self_or_ancestor locks entity nodes under it, the hierarchy item is made with the entity node locked while the "
+                "class's Document is locked)" % tr)
+        if "tree-build-vs-hierarchy-lock-cycle" in listed:
+            ctx.known("%s: %s" % (listed["tree-build-vs-hierarchy-lock-cycle"], what))
+        else:
+            path = core.write_replay(ctx.pid, ctx.seed, {"engine": "flags (hooks build)", "case": "treerace:%d" % n,
+                                                         "case_readable": {"files": {"aK.god": "class aK", "aC.god": "class aC (aK)", "aG.god": "class aG (aC)"},
+                                                                           "schedule": "see harness/src/eng_flags.rs, treerace"},
+                                                         "observed": tr, "expected": "treerace=ok: every attempt drains (request answered, pool joined)"})
+            v = core.Violation(what, path, True)
+            v.coverage = cov
+            raise v
+    cov["flag_schedules"] = len(cases)
+    cov["flag_schedules_answers_differing_from_lone"] = ndiff
+    cov["programs"] += len(cases)
+    cov["evaluations"] += len(cases)
+    cov["flag_schedule_sample"] = fl.describe(cases[len(cases) // 2])
+    return cov
+
+
+# --------------------------------------------------------------------------------------------
+# a linear inheritance chain on the real server (debug build, pool workers with a 2 MiB stack)
+# --------------------------------------------------------------------------------------------
+def chain_files(n):
+    files = {}
+    for i in range(n):
+        head = "class aC%d (aC%d)" % (i, i - 1) if i else "class aC0"
+        files["aC%d.god" % i] = "%s\nF%d : int4\nproc P%d\n  self.F0 = 1\n  self.\nendproc\n" % (head, i, i)
+    return files
+
+
+def run_chain(n):
+    """-> None when diagnostics, completion and definition on the deepest class are answered and the server exits 0,
+    else a description of what went wrong"""
+    import os, shutil, tempfile
+    from vlib import lsp
+    binary = lsp.build_server()
+    root = tempfile.mkdtemp(prefix="goldverif-c14-")
+    try:
+        for name, text in chain_files(n).items():
+            open(os.path.join(root, name), "w").write(text)
+        s = lsp.Session(binary, root)
+        s.initialize(root)
+        uri = lsp.file_uri(os.path.join(root, "aC%d.god" % (n - 1)))
+        s.request(1, "textDocument/diagnostic", {"textDocument": {"uri": uri}})
+        r1 = s.wait_response(1, 90)
+        s.request(2, "textDocument/completion", {"textDocument": {"uri": uri}, "position": {"line": 4, "character": 7}})
+        r2 = s.wait_response(2, 90)
+        s.request(3, "textDocument/definition", {"textDocument": {"uri": uri}, "position": {"line": 3, "character": 8}})
+        r3 = s.wait_response(3, 90)
+        r4, rc = s.shutdown_exit(4, 30)
+        bad = None
+        for k, (r, what) in enumerate(((r1, "diagnostic"), (r2, "completion"), (r3, "definition"))):
+            if r is None or ("result" not in r and "error" not in r):
+                bad = "%s on aC%d.god was not answered" % (what, n - 1)
+                break
+        if bad is None and rc != 0:
+            bad = "the server did not exit with status 0 (status %r)" % rc
+        if bad:
+            err = [l.strip() for l in s.stderr if "overflow" in l or "panicked" in l or "fatal" in l][:3]
+            try:
+                s.kill()
+            except Exception:
+                pass
+            return bad + ((" / " + " / ".join(err)) if err else "")
+        return None
+    finally:
+        shutil.rmtree(root, ignore_errors=True)
+
+
+def deep_chain(ctx, cov):
+    listed = dict((f.get("id"), f) for f in ctx.open_findings())
+    desc = lambda n: {"workspace": "aC0.god .. aC%d.god, aC<i>.god = class aC<i> (aC<i-1>) / F<i> : int4 / proc P<i> / self.F0 = 1 / self. / endproc" % (n - 1),
+                      "requests": "textDocument/diagnostic, completion after `self.`, definition on F0, on aC%d.god; real server, --stdio" % (n - 1)}
+    bad = run_chain(150)
+    if bad:
+        path = core.write_replay(ctx.pid, ctx.seed, {"engine": "server(debug build, pool worker stack)", "case": "deep_chain:150",
+                                                     "case_readable": desc(150), "observed": bad,
+                                                     "expected": "all three requests answered and exit status 0 on a chain of 150 classes"})
+        v = core.Violation("inheritance chain of 150 classes: " + bad, path, True)
+        v.coverage = cov
+        raise v
+    cov["deep_chain_150"] = "answered"
+    bad = run_chain(300)
+    if bad:
+        if "inheritance-chain-stack-overflow" in listed:
+            ctx.known("inheritance-chain-stack-overflow: a linear inheritance chain of 300 classes: %s" % bad)
+            cov["deep_chain_300"] = "known finding: " + bad
+        else:
+            path = core.write_replay(ctx.pid, ctx.seed, {"engine": "server(debug build, pool worker stack)", "case": "deep_chain:300",
+                                                         "case_readable": desc(300), "observed": bad,
+                                                         "expected": "all three requests answered and exit status 0 (the analysis of a class "
+                                                                     "analyses its parent from inside its walk: recursion depth = chain length)"})
+            v = core.Violation("inheritance chain of 300 classes: " + bad, path, True)
+            v.coverage = cov
+            raise v
+    else:
+        cov["deep_chain_300"] = "answered"
+    cov["programs"] += 2
+    cov["evaluations"] += 2
+    return cov
+
+
 def correspondence(ctx, broken_obligations=()):
     cases, info = gen(ctx)
     seqs, conc, dups = corpus(ctx)
@@ -319,6 +484,8 @@ def correspondence(ctx, broken_obligations=()):
     cov["programs"] += len(dups)
     cov["evaluations"] += len(dups)
     cov["diff_wall_s"] = round(cov["diff_wall_s"] + covc["diff_wall_s"], 2)
+    cov = flags_stage(ctx, cov, known)
+    cov = deep_chain(ctx, cov)
     cov["parent_graphs"] = info["graphs"]
     cov["cycle_shapes"] = sorted(str(s) for s in info["shapes"])
     cov["exhaustive"] = True
@@ -355,6 +522,20 @@ def correspondence(ctx, broken_obligations=()):
 
 def replay(ctx, rep):
     case = rep["case"]
+    if case.startswith("deep_chain:"):
+        bad = run_chain(int(case.split(":")[1]))
+        print("deep chain:", bad or "answered")
+        return 1 if bad else 0
+    if rep.get("engine", "").startswith("flags"):
+        from checks import flags_common as fl
+        hb = diff.Engines.harness(hooks=True)
+        out = core.run_lines(hb, "flags", [case], shards=1)[0]
+        if case.startswith("treerace"):
+            print("implementation:", out)
+            return 0 if out.startswith("treerace=ok") else 1
+        r = fl.oracle(case, out, None)
+        print("case:", fl.describe(case)); print("implementation:", out); print("oracle:", r or "property holds on this case")
+        return 1 if r else 0
     hb = diff.Engines.harness()
     out = core.run_lines(hb, "forest", [case], shards=1)[0]
     mode = case.split("|", 1)[0]
